@@ -304,3 +304,191 @@ impl<I: Identifier> AccessControlList<I> {
         assert_access_one(&self.write_access, id, "write");
     }
 }
+
+/// Verification hooks (event log, current-job tracking, seeded jitter).
+///
+/// Compiled only with `--cfg fontc_verif`; inert unless the environment variable
+/// `FONTC_VERIF_TRACE` (event log file, appended) or `FONTC_VERIF_JITTER` (seed) is set.
+#[cfg(fontc_verif)]
+pub mod verif {
+    use super::{Access, AccessType, Identifier};
+    use std::{
+        cell::RefCell,
+        fs::{File, OpenOptions},
+        io::Write,
+        sync::{
+            Mutex, OnceLock,
+            atomic::{AtomicU64, AtomicUsize, Ordering},
+        },
+    };
+
+    static SINK: OnceLock<Option<Mutex<File>>> = OnceLock::new();
+    static JITTER: OnceLock<Option<AtomicU64>> = OnceLock::new();
+    static BUILD: AtomicUsize = AtomicUsize::new(0);
+
+    thread_local! {
+        static CURRENT_JOB: RefCell<Option<String>> = const { RefCell::new(None) };
+        static CREATOR: RefCell<Option<String>> = const { RefCell::new(None) };
+    }
+
+    fn sink() -> Option<&'static Mutex<File>> {
+        SINK.get_or_init(|| {
+            let path = std::env::var_os("FONTC_VERIF_TRACE")?;
+            let file = OpenOptions::new().create(true).append(true).open(path).ok()?;
+            Some(Mutex::new(file))
+        })
+        .as_ref()
+    }
+
+    /// Is the event log active?
+    pub fn enabled() -> bool {
+        sink().is_some()
+    }
+
+    /// Start a new build (one process may run several); returns its number.
+    pub fn next_build() -> usize {
+        BUILD.fetch_add(1, Ordering::AcqRel) + 1
+    }
+
+    fn write_line(file: &mut File, line: &str) {
+        let build = BUILD.load(Ordering::Acquire);
+        let _ = writeln!(file, "({build} {line})");
+    }
+
+    /// Holds the log lock (if the log is active). Events logged through one guard are
+    /// contiguous in the log; state changes made while holding it (the workers' counter
+    /// decrements) take their place in the log order at the guard's events.
+    pub struct LogGuard(Option<std::sync::MutexGuard<'static, File>>);
+
+    impl LogGuard {
+        pub fn log(&mut self, line: &str) {
+            if let Some(file) = self.0.as_mut() {
+                write_line(file, line);
+            }
+        }
+    }
+
+    pub fn lock() -> LogGuard {
+        LogGuard(sink().map(|s| s.lock().unwrap_or_else(|e| e.into_inner())))
+    }
+
+    /// Append one event.
+    pub fn log(line: &str) {
+        lock().log(line);
+    }
+
+    fn hex(s: &str) -> String {
+        let mut out = String::with_capacity(1 + 2 * s.len());
+        out.push('x');
+        for b in s.bytes() {
+            out.push_str(&format!("{b:02x}"));
+        }
+        out
+    }
+
+    /// `(discriminant xHEX-of-Debug)`
+    pub fn fmt_id<I: Identifier>(id: &I) -> String {
+        format!("({} {})", id.discriminant(), hex(&format!("{id:?}")))
+    }
+
+    pub fn fmt_ids<I: Identifier>(ids: &[I]) -> String {
+        let parts: Vec<_> = ids.iter().map(fmt_id).collect();
+        format!("({})", parts.join(" "))
+    }
+
+    fn fmt_access_type<I: Identifier>(t: &AccessType<I>) -> String {
+        match t {
+            AccessType::Variant(id) => format!("(v {})", id.discriminant()),
+            AccessType::SpecificInstanceOfVariant(id) => format!("(s {})", fmt_id(id)),
+        }
+    }
+
+    /// `none | unknown | all | (set (v disc) (s id) …)`, set members sorted
+    pub fn fmt_access<I: Identifier>(access: &Access<I>) -> String {
+        match access {
+            Access::None => "none".into(),
+            Access::Unknown => "unknown".into(),
+            Access::All => "all".into(),
+            Access::Variant(id) => format!("(set (v {}))", id.discriminant()),
+            Access::SpecificInstanceOfVariant(id) => format!("(set (s {}))", fmt_id(id)),
+            Access::Set(ids) => {
+                let mut parts: Vec<_> = ids.iter().map(fmt_access_type).collect();
+                parts.sort();
+                format!("(set {})", parts.join(" "))
+            }
+        }
+    }
+
+    /// The job the current thread is executing (set around `Work::exec`).
+    pub fn set_current_job(job: Option<String>) {
+        CURRENT_JOB.with(|c| *c.borrow_mut() = job);
+    }
+
+    /// The completion the current (main) thread is handling; `None` = workload creation.
+    pub fn set_creator(creator: Option<String>) {
+        CREATOR.with(|c| *c.borrow_mut() = creator);
+    }
+
+    pub fn creator() -> String {
+        CREATOR.with(|c| c.borrow().clone().unwrap_or_else(|| "init".to_string()))
+    }
+
+    /// Record a context access (`kind` = "r" or "w") to `item` by the current job.
+    pub fn access<I: Identifier>(kind: &str, item: &I) {
+        if !enabled() {
+            return;
+        }
+        let who = CURRENT_JOB.with(|c| c.borrow().clone());
+        let who = who.unwrap_or_else(|| format!("(main {})", creator()));
+        log(&format!("acc {who} {kind} {}", fmt_id(item)));
+    }
+
+    static DELAYS: OnceLock<Vec<(String, String, u64)>> = OnceLock::new();
+
+    /// Schedule perturbation at a named `site` of the scheduler for a job of discriminant `disc`:
+    ///
+    /// * `FONTC_VERIF_DELAY=site:disc:ms,…` – a fixed sleep at matching sites (a directed schedule);
+    /// * `FONTC_VERIF_JITTER=seed` – a seeded pseudo-random sleep of 0..=`max_ms` milliseconds everywhere.
+    ///
+    /// Sleeping never changes what the scheduler may do, only which admissible interleaving happens.
+    pub fn pause(site: &str, disc: &str, max_ms: u64) {
+        let delays = DELAYS.get_or_init(|| {
+            std::env::var("FONTC_VERIF_DELAY")
+                .unwrap_or_default()
+                .split(',')
+                .filter_map(|item| {
+                    let mut parts = item.split(':');
+                    let site = parts.next()?.to_string();
+                    let disc = parts.next()?.to_string();
+                    let ms = parts.next()?.parse::<u64>().ok()?;
+                    Some((site, disc, ms))
+                })
+                .collect()
+        });
+        for (s, d, ms) in delays {
+            if s == site && d == disc {
+                std::thread::sleep(std::time::Duration::from_millis(*ms));
+            }
+        }
+        let Some(state) = JITTER
+            .get_or_init(|| {
+                let seed = std::env::var("FONTC_VERIF_JITTER").ok()?.parse::<u64>().ok()?;
+                Some(AtomicU64::new(seed))
+            })
+            .as_ref()
+        else {
+            return;
+        };
+        // splitmix64 on a shared counter
+        let mut z = state
+            .fetch_add(0x9E37_79B9_7F4A_7C15, Ordering::Relaxed)
+            .wrapping_add(0x9E37_79B9_7F4A_7C15);
+        z = (z ^ (z >> 30)).wrapping_mul(0xBF58_476D_1CE4_E5B9);
+        z = (z ^ (z >> 27)).wrapping_mul(0x94D0_49BB_1331_11EB);
+        z ^= z >> 31;
+        let micros = z % (max_ms * 1000 + 1);
+        if micros > 0 {
+            std::thread::sleep(std::time::Duration::from_micros(micros));
+        }
+    }
+}
